@@ -608,8 +608,8 @@ func execFstrace(c *ctx, line string) string {
 			return "badinput"
 		}
 		if sig, i := goDiscipline(seg, f[2:]); sig != "" {
-			c.stat("fst_goside_viol")
-			_ = i
+			// also reached when a recorded trace is replayed from the corpus
+			c.witness("C07", sig, fmt.Sprintf("recorded syscall trace violates the durability discipline at event %d: %s", i, sig), line)
 		}
 		// the implementation is expected to obey the discipline: constant
 		return "ok"
@@ -659,12 +659,12 @@ func genFstrace(c *ctx, emit func(string)) {
 	}
 	// the scenarios the property names, always run
 	fixed := []wl{
-		{4096, "o a:1:10 a:2:100 c"},                                            // create WAL, first commit into a fresh segment, more commits
-		{1024, "o a:3:300 a:3:300 w a:3:300 a:1:10 a:3:300 w c"},                  // rotation by small segment size
+		{4096, "o a:1:10 a:2:100 c"},                                                        // create WAL, first commit into a fresh segment, more commits
+		{1024, "o a:3:300 a:3:300 w a:3:300 a:1:10 a:3:300 w c"},                            // rotation by small segment size
 		{1024, "o a:3:300 w a:3:300 w a:3:300 w a:2:100 h:4 h:3 t:3 a:1:50 h:100 a:2:20 c"}, // head/tail truncation deleting files
-		{2048, "o c o a:1:10 c o a:2:700 a:2:700 w c o a:1:1 c"},                  // close/reopen then append (D1 pattern)
-		{1024, "o j:1000 a:2:50 h:2 j:5000 a:1:5 t:1 j:7 a:2:400 a:2:400 w c"},    // reset of the empty first segment (append at a high index)
-		{512, "o a:1:2000 w a:1:10 t:1 t:1 a:2:100 c o t:2 c"},                    // batch larger than a segment; truncation to empty
+		{2048, "o c o a:1:10 c o a:2:700 a:2:700 w c o a:1:1 c"},                            // close/reopen then append (D1 pattern)
+		{1024, "o j:1000 a:2:50 h:2 j:5000 a:1:5 t:1 j:7 a:2:400 a:2:400 w c"},              // reset of the empty first segment (append at a high index)
+		{512, "o a:1:2000 w a:1:10 t:1 t:1 a:2:100 c o t:2 c"},                              // batch larger than a segment; truncation to empty
 	}
 	nW := c.n * 3 / 5
 	if nW < len(fixed) {
